@@ -1,6 +1,6 @@
 (* Cache coherence of ImportDB.get_default (Sys/DBCache.v). *)
 From Coq Require Import NArith List Bool String Lia.
-From Verif Require Import Base.Chars Base.StrX Base.StrXProofs Sys.DBPath Sys.DBCompose Sys.DBCache.
+From Verif Require Import Base.Chars Base.StrX Base.StrXProofs Sys.DBPath Sys.DBCompose Sys.DBCache Sys.DBComposeProofs.
 Import ListNotations.
 
 (* ---------- boolean equalities reflect equality ---------- *)
@@ -209,6 +209,47 @@ Proof.
       rewrite (k1_meaning ver amb q _ Hamb).
       rewrite (load_dir_chain _ _ _ d0 _ (dir_chain_last_in d0)). rewrite LD. reflexivity.
   - destruct I as [I|[]]. subst k'. simpl. unfold load_result. rewrite LF. reflexivity.
+Qed.
+
+(* ---------- the database in effect for a target: the property's first sentence, end to end ---------- *)
+(* a successful fresh load is the composition of the files the search path reaches for the target's
+   directory: union of their imports minus everything named by any of their forget lists *)
+Theorem db_in_effect ver q v :
+  fresh t etc ver q = inr v ->
+  exists d0 files fs,
+    initial_dir t q = Some d0 /\
+    get_python_path _ t (q_cwd q) (q_home q) (pyflyby_path (q_env q)) (default_pyflyby_path etc)
+                    (last (dir_chain t d0) []) = PPOk files /\
+    all_parsed (map (content_of t) files) = inr fs /\
+    v = compose fs.
+Proof.
+  rewrite fresh_unfold. destruct (initial_dir t q) as [d0|]; [|discriminate].
+  unfold load_dir.
+  destruct (get_python_path _ t (q_cwd q) (q_home q) (pyflyby_path (q_env q))
+                            (default_pyflyby_path etc) (last (dir_chain t d0) [])) as [files|p|] eqn:PP;
+    try discriminate.
+  unfold load_result, load_files, from_code.
+  destruct (all_parsed (map (content_of t) files)) as [e|fs] eqn:AP; [discriminate|].
+  intros H. inversion H. exists d0, files, fs. auto.
+Qed.
+
+Corollary db_in_effect_known ver q v :
+  fresh t etc ver q = inr v ->
+  exists d0 files fs,
+    initial_dir t q = Some d0 /\
+    get_python_path _ t (q_cwd q) (q_home q) (pyflyby_path (q_env q)) (default_pyflyby_path etc)
+                    (last (dir_chain t d0) []) = PPOk files /\
+    all_parsed (map (content_of t) files) = inr fs /\
+    (forall i, In i (known v) <-> In_union f_known fs i /\ ~ Forgotten (In_union f_forget fs) i) /\
+    (forall i, In i (mandatory v) <-> In_union f_mand fs i /\ ~ Forgotten (In_union f_forget fs) i) /\
+    (forall k vs i, In (k, vs) (index ver v) -> In i vs -> ~ In_union f_forget fs i).
+Proof.
+  intros H. destruct (db_in_effect ver q v H) as [d0 [files [fs [A [B [D E]]]]]]. subst v.
+  exists d0, files, fs.
+  split; [exact A|]. split; [exact B|]. split; [exact D|].
+  split; [intros i; apply known_compose|].
+  split; [intros i; apply mandatory_compose|].
+  intros k vs i. apply index_respects_forget_files.
 Qed.
 
 (* ---------- histories ---------- *)
